@@ -335,7 +335,7 @@ class PD(Operator):
     def _apply(self, sm):
         xp = common.get_array_module()
         eq = xp.array([0, 0, 1]) * xp.atleast_1d(self.pd)[..., np.newaxis, np.newaxis]
-        sm.arrays.update("equilibrium", eq, resize=True)
+        sm.arrays.set("equilibrium", eq, resize=True)
         if self.reset:
             sm.arrays.update("states", sm.equilibrium)
         return sm
